@@ -209,7 +209,27 @@ pub(crate) mod vk {
     pub(crate) static mut CH_W: usize = 0;
     pub(crate) static mut CH_R: usize = 0;
     pub(crate) const CH_DIRECT: u32 = 0x0100_0000;      // tag of a run of direct bits: CH_DIRECT | count
-    pub(crate) fn ch_reset() { unsafe { CH_W = 0; CH_R = 0; } }
+    // slot identity = (registered object k, byte offset inside it): the encoder's and the decoder's probability
+    // structures (LZMACoder, LengthCoder) have the same type, hence the same layout, so equal offsets = same slot
+    pub(crate) static mut CH_ENC_BASE: [usize; 3] = [0; 3];
+    pub(crate) static mut CH_DEC_BASE: [usize; 3] = [0; 3];
+    pub(crate) static mut CH_SIZE: [usize; 3] = [0; 3];
+    pub(crate) fn ch_register<T>(k: usize, enc: &T, dec: &T) {
+        unsafe { CH_ENC_BASE[k] = enc as *const T as usize; CH_DEC_BASE[k] = dec as *const T as usize; CH_SIZE[k] = core::mem::size_of::<T>(); }
+    }
+    fn ch_slot(addr: usize, bases: &[usize; 3]) -> u32 {
+        unsafe {
+            let mut k = 0;
+            while k < 3 {
+                if CH_SIZE[k] != 0 && addr >= bases[k] && addr < bases[k] + CH_SIZE[k] { return ((k as u32 + 1) << 20) | (addr - bases[k]) as u32; }
+                k += 1;
+            }
+        }
+        panic!("probability slot outside the registered coder structures");
+    }
+    pub(crate) fn ch_enc_slot(addr: usize) -> u32 { ch_slot(addr, unsafe { &CH_ENC_BASE }) }
+    pub(crate) fn ch_dec_slot(addr: usize) -> u32 { ch_slot(addr, unsafe { &CH_DEC_BASE }) }
+    pub(crate) fn ch_reset() { unsafe { CH_W = 0; CH_R = 0; CH_SIZE = [0; 3]; } }
     pub(crate) fn ch_put(tag: u32, val: u32) {
         unsafe { assert!(CH_W < CH_CAP, "bit channel capacity"); CH_TAG[CH_W] = tag; CH_VAL[CH_W] = val; CH_W += 1; }
     }
@@ -237,6 +257,44 @@ pub(crate) mod vk {
         while i < HIGH_SYMBOLS { c.high[i] = base + 258 + i as u16; i += 1; }
         c
     }
+    pub(crate) const fn tag_row<const N: usize>(base: u16) -> [u16; N] {
+        let mut a = [0u16; N];
+        let mut i = 0;
+        while i < N { a[i] = base + i as u16; i += 1; }
+        a
+    }
+    pub(crate) const fn tag_grid<const R: usize, const C: usize>(base: u16) -> [[u16; C]; R] {
+        let mut a = [[0u16; C]; R];
+        let mut r = 0;
+        while r < R { a[r] = tag_row::<C>(base + (r * C) as u16); r += 1; }
+        a
+    }
+    /// an LZMACoder with given state/history (probabilities irrelevant under the bit channel)
+    pub(crate) fn plain_coder(pb: usize, state: u8, reps: [i32; REPS]) -> LZMACoder {
+        LZMACoder {
+            pos_mask: (1u32 << pb) - 1, reps, state: State::from(state),
+            is_match: [[0; POS_STATES_MAX]; STATES], is_rep: [0; STATES], is_rep0: [0; STATES], is_rep1: [0; STATES], is_rep2: [0; STATES],
+            is_rep0_long: [[0; POS_STATES_MAX]; STATES], dist_slots: [[0; DIST_SLOTS]; DIST_STATES], dist_special: [0; 124], dist_align: [0; ALIGN_SIZE],
+        }
+    }
+    /// an LZMACoder whose probability slots carry distinct tags (same layout for encoder and decoder)
+    pub(crate) fn tagged_coder(pb: usize, state: u8, reps: [i32; REPS]) -> LZMACoder {
+        const IS_MATCH: [[u16; POS_STATES_MAX]; STATES] = tag_grid::<STATES, POS_STATES_MAX>(3000);
+        const IS_REP: [u16; STATES] = tag_row::<STATES>(3200);
+        const IS_REP0: [u16; STATES] = tag_row::<STATES>(3220);
+        const IS_REP1: [u16; STATES] = tag_row::<STATES>(3240);
+        const IS_REP2: [u16; STATES] = tag_row::<STATES>(3260);
+        const IS_REP0_LONG: [[u16; POS_STATES_MAX]; STATES] = tag_grid::<STATES, POS_STATES_MAX>(3300);
+        const DIST_SLOTS: [[u16; DIST_SLOTS_N]; DIST_STATES] = tag_grid::<DIST_STATES, DIST_SLOTS_N>(3600);
+        const DIST_SPECIAL: [u16; 124] = tag_row::<124>(3900);
+        const DIST_ALIGN: [u16; ALIGN_SIZE] = tag_row::<ALIGN_SIZE>(4100);
+        LZMACoder {
+            pos_mask: (1u32 << pb) - 1, reps, state: State::from(state),
+            is_match: IS_MATCH, is_rep: IS_REP, is_rep0: IS_REP0, is_rep1: IS_REP1, is_rep2: IS_REP2,
+            is_rep0_long: IS_REP0_LONG, dist_slots: DIST_SLOTS, dist_special: DIST_SPECIAL, dist_align: DIST_ALIGN,
+        }
+    }
+    const DIST_SLOTS_N: usize = DIST_SLOTS;
     pub(crate) const TAGGED_LEN_1000: LengthCoder = tagged_length_coder(1000);
     pub(crate) const TAGGED_LEN_2000: LengthCoder = tagged_length_coder(2000);
 
